@@ -22,6 +22,15 @@ theorem failed_submission_changes_nothing (c : Cfg) (h : c.legacy = false) (s : 
     step c s .fail = some s := by
   simp [step, h]
 
+/-- A Submit before Start() (`ErrPipelineNotStarted`) burns no sequence number — not even in
+    the code before the repair: the started check precedes the allocation — and nothing can be
+    accepted before Start(). -/
+theorem submit_before_start_changes_nothing (c : Cfg) (s : St) (h : s.started = false) :
+    step c s .fail = some s ∧ ∀ x, step c s (.sub x) = none := by
+  constructor
+  · simp [step, h]
+  · intro x; simp [step, h]
+
 /-- `no_seq_gap`. Over all schedules (any number of workers, any interleaving, failed
     submissions anywhere): as long as Stop has not begun, every allocated sequence number
     has either been dequeued by the apply stage or belongs to a block that is still on its
@@ -83,7 +92,7 @@ theorem accepted_blocks_get_applied (c : Cfg) (hc : c.legacy = false) (s : St) (
 /-- Non-vacuity: a schedule with two failed submissions around accepted blocks, ending at rest. -/
 example :
     (run ⟨false, false⟩ init
-      [.fail, .sub ⟨0, true, true⟩, .fail, .sub ⟨1, false, false⟩, .dt ⟨1, false, false⟩,
+      [.start, .fail, .sub ⟨0, true, true⟩, .fail, .sub ⟨1, false, false⟩, .dt ⟨1, false, false⟩,
        .dp ⟨1, false, false⟩, .at_ ⟨1, false, false⟩, .ab ⟨1, false, false⟩,
        .dt ⟨0, true, true⟩, .dp ⟨0, true, true⟩, .at_ ⟨0, true, true⟩, .aq ⟨0, true, true⟩,
        .ap ⟨0, true, true⟩, .ad ⟨0, true, true⟩, .aq ⟨1, false, false⟩, .ad ⟨1, false, false⟩,
@@ -96,7 +105,7 @@ example :
     lost sequence number and is never applied — the pipeline is at rest with the block pending. -/
 theorem legacy_submit_stalls :
     (run ⟨false, true⟩ init
-      [.fail, .sub ⟨1, true, true⟩, .dt ⟨1, true, true⟩, .dp ⟨1, true, true⟩,
+      [.start, .fail, .sub ⟨1, true, true⟩, .dt ⟨1, true, true⟩, .dp ⟨1, true, true⟩,
        .at_ ⟨1, true, true⟩, .ab ⟨1, true, true⟩]).map
       (fun s => (decide (Quiescent s), s.cancelled, s.applied, s.pending.map Item.seq, s.nextSeq, s.counter))
       = some (true, false, [], [1], 0, 2) := by decide
